@@ -570,13 +570,19 @@ def _finish(stmts, mode, targets, at):
     return stmts + none_stmt()
 
 
-def _instantiate(helper, kind, call, caller_idents, tag, target=None):
+def _instantiate(helper, kind, call, caller_idents, tag, target=None,
+                 as_expr=False):
     """(prefix assignments, body statements) of helper specialised for this
     call; returns stay as they are.  `target`: the caller assigns the result
     to this plain name."""
     order = _bind(helper, kind, call)
     body = copy.deepcopy(_body_wo_doc(helper))
+    # a straight-line helper is always read as its expression; a helper
+    # that decides with `if` only where a statement cannot stand
     expr = _as_expression(body)
+    if expr is not None and not as_expr and any(
+            isinstance(st, ast.If) for st in body):
+        expr = None
     is_expr = expr is not None
     if expr is not None and (len(body) > 1 or
                              not isinstance(body[0], ast.Return)):
@@ -727,6 +733,7 @@ class Inliner:
         bind_kind = 'method' if kind == 'method' else 'func'
         tree = self.trees[path]
         expr_helper = _as_expression(_body_wo_doc(node)) is not None
+        decides = any(isinstance(st, ast.If) for st in _body_wo_doc(node))
         want = {id(c) for c in calls}
         done = set()
         tag = node.name.strip('_')
@@ -742,11 +749,17 @@ class Inliner:
             idents = _idents(scope) if not isinstance(scope, ast.Module) \
                 else {n.id for n in self._walk_scope(scope)
                       if isinstance(n, ast.Name)}
+            if decides:
+                # statement positions first: the control flow stays visible
+                self._rewrite_blocks(scope, node, bind_kind, want - done,
+                                     idents, tag, done)
             if expr_helper:
                 for call in here:
+                    if id(call) in done:
+                        continue
                     try:
                         pre, b = _instantiate(node, bind_kind, call, idents,
-                                              tag)
+                                              tag, as_expr=True)
                     except _Site:
                         continue
                     if pre:
